@@ -16,6 +16,7 @@ from typing import Any, Callable, Dict, List, Optional
 ROOT = os.path.dirname(os.path.dirname(os.path.abspath(__file__)))
 PY = os.path.join(ROOT, ".venv", "bin", "python")
 KNOWN_FILE = os.path.join(ROOT, "known_findings.json")
+OUT = os.environ.get("VERIF_OUT") or ROOT  # development loop only: keep evidence/replays of runs against a scratch worktree apart
 
 
 class Fail:
@@ -174,8 +175,8 @@ def run_property(prop: str, tier: str, only: Optional[str] = None, jobs: int = 0
                     pass
 
     obmap = {o.oid: o for o in obs}
-    os.makedirs(os.path.join(ROOT, "replays"), exist_ok=True)
-    os.makedirs(os.path.join(ROOT, "evidence"), exist_ok=True)
+    os.makedirs(os.path.join(OUT, "replays"), exist_ok=True)
+    os.makedirs(os.path.join(OUT, "evidence"), exist_ok=True)
     violations: List[str] = []
     known_lines: List[str] = []
     harness_errors: List[str] = []
@@ -294,7 +295,7 @@ def run_property(prop: str, tier: str, only: Optional[str] = None, jobs: int = 0
         "violations": len(violations),
     }
     if not only:
-        with open(os.path.join(ROOT, "evidence", prop + ".json"), "w") as f:
+        with open(os.path.join(OUT, "evidence", prop + ".json"), "w") as f:
             json.dump(ev, f, indent=1, default=str)
     for line in known_lines:
         print(line)
@@ -316,7 +317,7 @@ def run_property(prop: str, tier: str, only: Optional[str] = None, jobs: int = 0
 
 
 def _write_replay(prop: str, tier: str, r: Dict[str, Any], args: Dict[str, Any], rep: Dict[str, Any]) -> str:
-    d = os.path.join(ROOT, "replays")
+    d = os.path.join(OUT, "replays")
     n = 0
     while True:
         path = os.path.join(d, "%s-%s-%d-%d.json" % (prop, r["oid"].replace("/", "_"), r["pidx"], n))
